@@ -14,7 +14,7 @@ VIEW_FNS = (
     "option::Option::unwrap", "option::Option::expect", "option::Option::as_ref", "option::Option::unwrap_unchecked",
     "option::Option::as_deref", "option::Option::copied", "option::Option::cloned",
     "ops::Deref::deref", "borrow::Borrow::borrow", "convert::AsRef::as_ref", "clone::Clone::clone",
-    "reclaim::GuardRef::deref", "sync::atomic::Atomic::into_inner", "sync::atomic::AtomicPtr::into_inner", "seize::Link::cast",
+    "reclaim::GuardRef::deref", "ops::Try::branch", "try_trait::Try::branch", "sync::atomic::Atomic::into_inner", "sync::atomic::AtomicPtr::into_inner", "seize::Link::cast",
 )
 
 
